@@ -61,6 +61,7 @@ fn main() {
         ("rerun", _) => rerun::rerun(&a, &mut out),
         ("drive", "builder") => fam_builder::drive_builder(&a, &mut out),
         ("drive", "big") => fam_h::drive_big(&a, &mut out),
+        ("drive", "exh") => fam_h::drive_exh(&a, &mut out),
         ("drive", "c10ops") => fam_a::drive_c10ops(&a, &mut out),
         (m, f) => {
             eprintln!("unknown mode/family {} {}", m, f);
